@@ -63,7 +63,7 @@ theorem sstep_frameE (c : Cfg) (hw : WF c) (sh sh' : Sh) (pc pc' : SPc)
       obtain ⟨rfl, rfl⟩ := h; constructor <;> simp
   | write m =>
     simp only [sstep] at h
-    by_cases h1 : sh.sock ≠ .open
+    by_cases h1 : sh.sock.wfail = true
     · simp [h1] at h; obtain ⟨rfl, rfl⟩ := h; constructor <;> simp
     · by_cases h2 : sh.peerReads = true <;> simp [h1, h2] at h
       obtain ⟨rfl, rfl⟩ := h; constructor <;> simp
@@ -344,6 +344,12 @@ theorem invR_env (c : Cfg) (hw : WF c) (s s' : St) (e : Env) (hi : InvR s)
     (h : estep c s e = some s') : InvR s' := by
   cases e with
   | peerClose =>
+    simp only [estep] at h
+    by_cases h1 : s.sh.sock = .open ∨ s.sh.sock = .peerShut <;> simp [h1] at h
+    subst h
+    refine ⟨?_, hi.tmo⟩
+    intro hr; have := hi.rsock hr; rcases h1 with h1 | h1 <;> (rw [h1] at this; cases this)
+  | peerShut =>
     simp only [estep] at h
     by_cases h1 : s.sh.sock = .open <;> simp [h1] at h
     subst h
